@@ -23,7 +23,7 @@ func VerifH_C03_postprocessor_stop() {
 	in := make(chan *models.Item, 1)
 	outCap := verifrt.Choice("downstream-capacity", 2) // 0: nobody takes the seed
 	out := make(chan *models.Item, outCap)
-	stuck := false
+	stuck, late := false, false
 	err := Start(in, out)
 	verifrt.Assert(err == nil, "C03 stage starts")
 	verifrt.Quiesce()
@@ -61,6 +61,14 @@ func VerifH_C03_postprocessor_stop() {
 		pause.Pause("verif")
 		verifrt.Settle()
 		verifrt.Cover("stop-while-paused")
+		if !stuck {
+			verifrt.Quiesce() // every idle worker has seen the pause and waits to acknowledge it
+			l := models.NewItem("late", &models.URL{Raw: "http://x.example/late"}, "")
+			l.SetStatus(models.ItemCompleted)
+			in <- l // work arrives while the stage is paused
+			late = true
+			verifrt.Cover("work-arrives-while-paused")
+		}
 	case 2:
 		if stuck {
 			return // Resume legitimately waits for a worker that is stuck on a consumer that never reads: not a stop scenario
@@ -72,6 +80,9 @@ func VerifH_C03_postprocessor_stop() {
 	}
 	Stop() // a hang is reported by the engine as a deadlock
 	verifrt.Cover("stopped")
+	if late {
+		verifrt.Assert(len(in) == 1, "C14 a paused worker takes no work, also when its stage is stopped while paused")
+	}
 }
 
 // VerifH_C17_postprocessor_gauge: the worker gauge of this stage equals the number of live workers and is zero after stop,
